@@ -158,7 +158,7 @@ func Exec(r Run) (*Result, error) {
 	cmd.Dir = dir
 	cmd.Env = os.Environ()
 	// UTF-8 on stdout: PrintT / ToJson output carries non-ASCII string values
-	jopts := "-Dfile.encoding=UTF-8 -Dstdout.encoding=UTF-8 -Dsun.stdout.encoding=UTF-8"
+	jopts := "-Xss64m -Dfile.encoding=UTF-8 -Dstdout.encoding=UTF-8 -Dsun.stdout.encoding=UTF-8"
 	if r.DFS {
 		jopts += " -Dtlc2.tool.queue.IStateQueue=StateDeque"
 	}
